@@ -88,6 +88,15 @@ type VerifSM struct {
 	frames    []VerifSMFrame
 	created   []int64 // stream IDs in the order newFlowController was called (under the map's mutex)
 	completed []int64
+	onCreate  func(id int64) // test hook: runs inside newFlowController, i.e. under the map's write lock
+}
+
+// SetOnCreate installs (or clears) a hook that runs whenever the streams map creates a stream,
+// while the creating method (GetOrOpenStream / openStream) still holds the map's mutex.
+func (v *VerifSM) SetOnCreate(f func(id int64)) {
+	v.mu.Lock()
+	v.onCreate = f
+	v.mu.Unlock()
 }
 
 func NewVerifSM(client bool, maxBidi, maxUni uint64) *VerifSM {
@@ -118,7 +127,11 @@ func NewVerifSM(client bool, maxBidi, maxUni uint64) *VerifSM {
 		func(id protocol.StreamID) flowcontrol.StreamFlowController {
 			v.mu.Lock()
 			v.created = append(v.created, int64(id))
+			hook := v.onCreate
 			v.mu.Unlock()
+			if hook != nil {
+				hook(int64(id))
+			}
 			return flowcontrol.NewStreamFlowController(id, cfc, 1<<16, 1<<16, 1<<16, rtt, utils.DefaultLogger)
 		},
 		maxBidi, maxUni, pers,
